@@ -72,6 +72,8 @@ GENERATORS = [
     ("gen_text", ("miniconf/src/node.rs", "miniconf/src/jsonpath.rs", "miniconf/src/key.rs"), "Text.lean"),
     ("gen_impls", ("miniconf/src/impls.rs", "miniconf/src/key.rs", "miniconf/src/tree.rs"), "Impls.lean"),
     ("gen_leaf", "miniconf/src/leaf.rs", "Leaf.lean"),
+    ("gen_py", ("py/miniconf-mqtt/miniconf/async_.py", "py/miniconf-mqtt/miniconf/sync.py",
+                "py/miniconf-mqtt/miniconf/common.py"), "Py.lean"),
 ]
 
 
